@@ -256,62 +256,67 @@ def applyOp (I : Interp) (op : String) (items : List (Role × Val)) : Option Val
     | some vs, some m => if op ∈ mmlNaryRelations then chain I m vs else m.apply I vs
     | _, _ => none
 
+/-- `<degree>` / `<logbase>` keep their role; everything else is a plain operand -/
+def Mml.qualifierRole : Mml → Option Role
+  | .el tag _ => if tag = "degree" then some .degree else if tag = "logbase" then some .logbase else none
+  | _ => none
+
+/-- the item a child `k` contributes: `self` = value of `k` as an expression, `inner` = value of its only child -/
+def itemOf (k : Mml) (self inner : Option Val) : Option (Role × Val) :=
+  match k.qualifierRole with
+  | none => self.map fun v => (Role.plain, v)
+  | some ro => inner.map fun v => (ro, v)
+
+def consItem (it : Option (Role × Val)) (its : Option (List (Role × Val))) : Option (List (Role × Val)) :=
+  match it, its with
+  | some a, some r => some (a :: r)
+  | _, _ => none
+
+/-- one `<piece>`: `cond` and `value` are the values of its two children, `rest` the value of the remaining pieces -/
+def pieceSem (cond value rest : Option Val) : Option Val :=
+  match cond with
+  | some (.bool true) => value
+  | some (.bool false) => rest
+  | _ => none
+
+/-- value of a constant element (`<pi/>`, `<true/>` …) -/
+def constSem (I : Interp) (tag : String) : Option Val :=
+  match mmlMeaning tag with
+  | some m => m.constVal I
+  | none => none
+
+def applySem (I : Interp) (op : String) (items : Option (List (Role × Val))) : Option Val :=
+  match items with
+  | some its => applyOp I op its
+  | none => none
+
 mutual
 /-- MathML 2 value of an element -/
 def evalMml (I : Interp) : Mml → Option Val
   | .ci n => some (I.var n)
   | .cn ty text kids => (cnMeaning ty text kids).map .num
+  | .el tag (.cons (.el op opk) rest) =>
+    if tag = "apply" then applySem I op (evalItems I rest)
+    else if tag = "piecewise" then evalPieces I (.cons (.el op opk) rest)
+    else constSem I tag
   | .el tag kids =>
-    if tag = "apply" then
-      match kids with
-      | .cons (.el op _) rest =>
-        match evalItems I rest with
-        | some items => applyOp I op items
-        | none => none
-      | _ => none
+    if tag = "apply" then none
     else if tag = "piecewise" then evalPieces I kids
-    else match mmlMeaning tag with
-      | some m => m.constVal I
-      | none => none
+    else constSem I tag
   | _ => none
 /-- values of the children after the operator; `<degree>`/`<logbase>` wrap exactly one child and keep their role -/
 def evalItems (I : Interp) : Mml → Option (List (Role × Val))
   | .nil => some []
-  | .cons k rest =>
-    let pv : Option (Role × Val) := (evalMml I k).map fun v => (Role.plain, v)
-    let item : Option (Role × Val) :=
-      match k with
-      | .el tag dk =>
-        if tag = "degree" then
-          (match dk with
-           | .cons d .nil => (evalMml I d).map fun v => (Role.degree, v)
-           | _ => none)
-        else if tag = "logbase" then
-          (match dk with
-           | .cons d .nil => (evalMml I d).map fun v => (Role.logbase, v)
-           | _ => none)
-        else pv
-      | _ => pv
-    match item, evalItems I rest with
-    | some it, some its => some (it :: its)
-    | _, _ => none
+  | .cons (.el tag (.cons d .nil)) rest =>
+    consItem (itemOf (.el tag (.cons d .nil)) (evalMml I (.el tag (.cons d .nil))) (evalMml I d)) (evalItems I rest)
+  | .cons k rest => consItem (itemOf k (evalMml I k) none) (evalItems I rest)
   | _ => none
 /-- `<piece>`s in order, first true condition wins; `<otherwise>` only as the last child -/
 def evalPieces (I : Interp) : Mml → Option Val
-  | .cons (.el tag pk) rest =>
-    if tag = "piece" then
-      match pk with
-      | .cons e (.cons c .nil) =>
-        match evalMml I c with
-        | some (.bool true) => evalMml I e
-        | some (.bool false) => evalPieces I rest
-        | _ => none
-      | _ => none
-    else if tag = "otherwise" then
-      match pk, rest with
-      | .cons e .nil, .nil => evalMml I e
-      | _, _ => none
-    else none
+  | .cons (.el tag (.cons e (.cons c .nil))) rest =>
+    if tag = "piece" then pieceSem (evalMml I c) (evalMml I e) (evalPieces I rest) else none
+  | .cons (.el tag (.cons e .nil)) .nil =>
+    if tag = "otherwise" then evalMml I e else none
   | _ => none
 end
 
